@@ -56,6 +56,48 @@ def axis_subscripts(e, names):
     return out
 
 
+def entry_cell_rule(chk, u, D, rule="T2"):
+    """Entry cell tables get_{x,y,z}_index against the geometric signature (shared by C02-T2 and C03-D6)."""
+    n2 = 0
+    for a, nm in enumerate(("get_x_index", "get_y_index", "get_z_index")):
+        fn = u.func("DensitySubGrid::" + nm)
+        chk.analysed(function=fn["full"])
+        pid = fn["params"][1]["id"]
+        xid = fn["params"][0]["id"]
+        arms, els = ifchain(fn, pid)
+        covered = {}
+        for vals, arm in arms:
+            rets = [s for s in C.walk_stmt(arm) if s.get("k") == "Return"]
+            if len(rets) != 1:
+                raise AnalysisBroken("%s: arm without a single return" % fn["full"])
+            r = C.strip_casts(rets[0]["x"])
+            kind = None
+            if C.const_int(r) == 0:
+                kind = "N"
+            elif r.get("k") == "Bin" and r["op"] == "-" and C.const_int(r["b"]) == 1 and \
+                    ("_number_of_cells", a) in axis_subscripts(r["a"], {"_number_of_cells"}):
+                kind = "P"
+            elif r.get("k") == "Bin" and r["op"] == "*":
+                refs = {C.strip_casts(r["a"]).get("id"), C.strip_casts(r["b"]).get("id")}
+                if xid in refs and ("_inv_cell_size", a) in axis_subscripts(r, {"_inv_cell_size"}):
+                    kind = "."
+            if kind is None:
+                kind = "?" + C.pretty(r)
+            for v in vals:
+                covered[v] = (kind, rets[0])
+        for v in D.all27():
+            n2 += 1
+            want = D.sig[v][a]
+            got = covered.get(v, ("error arm", None))
+            chk.require(got[0] == want, rule, "%s(%s) gives the %s" % (nm, D.name(v), {
+                "N": "lower cell 0", "P": "upper cell n-1", ".": "position-derived index"}[want]),
+                        where(got[1], fn) if got[1] else where(fn),
+                        "a packet entering through %s (signature %s) starts along axis %d in '%s', expected '%s'" %
+                        (D.name(v), "".join(D.sig[v]), a, got[0], want), function=fn["full"],
+                        construct="%s %s" % (nm, D.name(v)))
+    return n2
+
+
 def run(chk, prog):
     chk.explanation = (
         "The exit-classification table, the three entry-index tables and the skeleton of the ray march are "
@@ -112,43 +154,7 @@ def run(chk, prog):
     chk.extra["signatures"] = {D.name(k): "".join(v) for k, v in sorted(D.sig.items())}
 
     # ---- T2 -------------------------------------------------------------------------------------
-    n2 = 0
-    for a, nm in enumerate(("get_x_index", "get_y_index", "get_z_index")):
-        fn = u.func("DensitySubGrid::" + nm)
-        chk.analysed(function=fn["full"])
-        pid = fn["params"][1]["id"]
-        xid = fn["params"][0]["id"]
-        arms, els = ifchain(fn, pid)
-        covered = {}
-        for vals, arm in arms:
-            rets = [s for s in C.walk_stmt(arm) if s.get("k") == "Return"]
-            if len(rets) != 1:
-                raise AnalysisBroken("%s: arm without a single return" % fn["full"])
-            r = C.strip_casts(rets[0]["x"])
-            kind = None
-            if C.const_int(r) == 0:
-                kind = "N"
-            elif r.get("k") == "Bin" and r["op"] == "-" and C.const_int(r["b"]) == 1 and \
-                    ("_number_of_cells", a) in axis_subscripts(r["a"], {"_number_of_cells"}):
-                kind = "P"
-            elif r.get("k") == "Bin" and r["op"] == "*":
-                refs = {C.strip_casts(r["a"]).get("id"), C.strip_casts(r["b"]).get("id")}
-                if xid in refs and ("_inv_cell_size", a) in axis_subscripts(r, {"_inv_cell_size"}):
-                    kind = "."
-            if kind is None:
-                kind = "?" + C.pretty(r)
-            for v in vals:
-                covered[v] = (kind, rets[0])
-        for v in D.all27():
-            n2 += 1
-            want = D.sig[v][a]
-            got = covered.get(v, ("error arm", None))
-            chk.require(got[0] == want, "T2", "%s(%s) gives the %s" % (nm, D.name(v), {
-                "N": "lower cell 0", "P": "upper cell n-1", ".": "position-derived index"}[want]),
-                        where(got[1], fn) if got[1] else where(fn),
-                        "a packet entering through %s (signature %s) starts along axis %d in '%s', expected '%s'" %
-                        (D.name(v), "".join(D.sig[v]), a, got[0], want), function=fn["full"],
-                        construct="%s %s" % (nm, D.name(v)))
+    n2 = entry_cell_rule(chk, u, D)
     chk.floor("T2", n2, 81)
 
     # ---- T3 -------------------------------------------------------------------------------------
